@@ -105,7 +105,7 @@ impl QSolJulData {
         }
 
         let a_ref = props.global.a_ref;
-        let q_soljul = Q_soljul / a_ref;
+        let q_soljul = div_or_zero(Q_soljul, a_ref);
         info!(
             "q_sol;jul={:.2} kWh/m².mes, Q_soljul={:.2} kWh/mes, A_ref={:.2}",
             q_soljul, Q_soljul, a_ref
@@ -114,18 +114,28 @@ impl QSolJulData {
         // Guarda datos globales y corrige medias globales
         q_soljul_data.q_soljul = q_soljul;
         q_soljul_data.Q_soljul = Q_soljul;
-        q_soljul_data.irradiance_mean /= q_soljul_data.a_wp;
-        q_soljul_data.fshobst_mean /= q_soljul_data.a_wp;
-        q_soljul_data.gglshwi_mean /= q_soljul_data.a_wp;
-        q_soljul_data.f_f_mean /= q_soljul_data.a_wp;
+        let a_wp = q_soljul_data.a_wp;
+        q_soljul_data.irradiance_mean = div_or_zero(q_soljul_data.irradiance_mean, a_wp);
+        q_soljul_data.fshobst_mean = div_or_zero(q_soljul_data.fshobst_mean, a_wp);
+        q_soljul_data.gglshwi_mean = div_or_zero(q_soljul_data.gglshwi_mean, a_wp);
+        q_soljul_data.f_f_mean = div_or_zero(q_soljul_data.f_f_mean, a_wp);
 
         // Completa cálcula de medias por orientación (dividiendo por area de cada orientación)
         for (_, detail) in q_soljul_data.detail.iter_mut() {
-            detail.f_f_mean /= detail.a;
-            detail.gglshwi_mean /= detail.a;
-            detail.fshobst_mean /= detail.a;
+            detail.f_f_mean = div_or_zero(detail.f_f_mean, detail.a);
+            detail.gglshwi_mean = div_or_zero(detail.gglshwi_mean, detail.a);
+            detail.fshobst_mean = div_or_zero(detail.fshobst_mean, detail.a);
         }
 
         q_soljul_data
+    }
+}
+
+/// Cociente x / a, o 0.0 cuando el divisor (área) es nulo
+fn div_or_zero(x: f32, a: f32) -> f32 {
+    if a == 0.0 {
+        0.0
+    } else {
+        x / a
     }
 }
